@@ -38,6 +38,8 @@ def cases(tier):
         out.append(f"interp/{ssm}/fixedpoint/none/ts0/o1q1d1/damp_zero")
         out.append(f"interp/{ssm}/fixedinterval/none/ts0/o1q1d1/damp_zero")
         out.append(f"interp_at/{ssm}/fixedpoint/none/ts0/o1q1d1/damp_zero")
+        # dynamic calibration: the scale carried by the re-based states decides the next checkpoint inside the same step
+        out.append(f"interp/{ssm}/fixedpoint/dynamic/ts0/o1q1d1/damp_zero")
     out.append("chain/i/noclip/o2i2")
     if tier == "thorough":
         for ssm in cm.SSMS:
